@@ -31,6 +31,10 @@ def setup(ctx, mon):
 
 
 def cases(rng, tier, shard, nshards):
+    for j in range(6 if tier == 'quick' else 40):
+        # two calls of one object with different extra arguments overlap (f itself uses the object, or a second thread does)
+        yield dict(kind='overlap', method=['central', 'forward', 'complex'][(j + shard) % 3], gradient=bool(j % 2), threads=bool((j // 2) % 2),
+                   at=int(rng.integers(1, 4)), seed=int(rng.integers(0, 2 ** 31)), n=int(rng.integers(2, 5)))
     for i in range(BUDGET[tier] // nshards):
         n, m = int(rng.integers(1, 7)), int(rng.integers(1, 6))
         yield dict(n=n, m=m, method=['central', 'forward', 'complex'][i % 3],
@@ -40,7 +44,72 @@ def cases(rng, tier, shard, nshards):
                    gradient=bool(rng.random() < 0.3), xshape=str(rng.choice(['vector', 'matrix', 'matrix', 'scalar'])))
 
 
+def run_overlap(case, ctx):
+    """Extra arguments belong to the call they were given to: call A (scale 2) is paused inside one of its evaluations of f while
+    call B (scale 3, other keyword) runs to completion on the same object; A returns 2 A_mat, B returns 3 A_mat."""
+    import threading
+    import numdifftools.nd_scipy as nds
+    rng = np.random.default_rng(case['seed'])
+    n = case['n']
+    m = 1 if case['gradient'] else 3
+    A = np.round(rng.normal(size=(m, n)), 3)
+    x = np.round(rng.uniform(-1, 1, size=n), 3)
+    state = dict(count=0, b=None, busy=False)
+    box = []
+    go_b, b_done = threading.Event(), threading.Event()
+
+    def f(z, s=1.0, shift=0.0):
+        if threading.current_thread().name != 'vf-B' and not state['busy'] and s == 2.0:
+            state['count'] += 1
+            if state['count'] == case['at']:
+                state['busy'] = True
+                if case['threads']:
+                    go_b.set()
+                    b_done.wait(60)
+                else:
+                    state['b'] = box[0](x.copy(), 3.0, shift=-1.5)
+                state['busy'] = False
+        v = s * (A @ np.asarray(z).ravel()) + shift
+        return v[0] if case['gradient'] else v
+    box.append((nds.Gradient if case['gradient'] else nds.Jacobian)(f, method=case['method']))
+
+    def run_b():
+        go_b.wait(60)
+        try:
+            state['b'] = box[0](x.copy(), 3.0, shift=-1.5)
+        except Exception as exc:
+            state['b'] = exc
+        finally:
+            b_done.set()
+    tb = None
+    if case['threads']:
+        tb = threading.Thread(target=run_b, name='vf-B')
+        tb.start()
+    try:
+        a = box[0](x.copy(), 2.0, shift=0.5)
+    except Exception as exc:
+        a = exc
+    if tb is not None:
+        go_b.set()
+        tb.join(60)
+    ctx.count('overlapping_calls_with_different_arguments:' + ('threads' if case['threads'] else 'reentrant'))
+    for label, res, sc in (('A', a, 2.0), ('B', state['b'], 3.0)):
+        if res is None or isinstance(res, Exception):
+            ctx.reject('raised', observed=repr(res)[:200], detail=dict(call=label, overlapping=True), method=case['method'])
+            return
+        J = np.asarray(res, dtype=float).reshape(m, n)
+        ctx.count('overlapping_results_asserted')
+        tol = 1e-6 * (1.0 + float(np.max(np.abs(A))) * sc * (1.0 + float(np.max(np.abs(x)))))
+        if not np.all(np.abs(J - sc * A) <= tol):
+            ctx.reject('jacobian_entries', observed=J, expected=sc * A, detail=dict(call=label, overlapping=('second thread' if case['threads'] else 're-entrant use')),
+                       method=case['method'], family='affine')
+            return
+    ctx.nontrivial(('overlap', case['method'], case['gradient'], case['threads']))
+
+
 def run_case(case, ctx):
+    if case.get('kind') == 'overlap':
+        return run_overlap(case, ctx)
     import numdifftools.nd_scipy as nds
     rng = np.random.default_rng(case['seed'])
     n, m, method = case['n'], case['m'], case['method']
